@@ -1083,15 +1083,34 @@ fn oracle_combo<C: AnsCombo>(rng: &mut Rng, w: u32, s: u32, bps: &[(u32, Vec<u32
         // ---- C12: size bound from an empty coder ----
         {
             let mut enc: AnsCoder<C::W, C::S> = AnsCoder::new();
-            let n = (rng.next() % 80) as usize;
-            let mut bound_bits = (s + w) as f64; // constant of the ANS bound: S + W
+            let n = match rng.next() % 40 { 0 => 4000, 1..=4 => 600, _ => (rng.next() % 80) as usize };
+            // how symbols are drawn: uniformly, or systematically the last / the rarest symbol
+            // of the model (large left cumulatives make rounding losses systematic)
+            let strategy = rng.next() % 4;
+            let mut bound_bits = (s + 2 * w) as f64; // constant stated by the property: S + 2W
             let mut d12 = format!("ans {:x} {:x} | new", w, s);
             for i in 0..n {
                 let mi = (rng.next() % 3) as usize;
                 let (b, p, cdf) = models[mi].clone();
-                let sym = rng.below(cdf.len() as u128 - 1) as usize;
+                let sym = match strategy {
+                    0 => cdf.len() - 2,
+                    1 => {
+                        let mut best = 0;
+                        for j in 0..cdf.len() - 1 {
+                            if cdf[j + 1] - cdf[j] <= cdf[best + 1] - cdf[best] {
+                                best = j;
+                            }
+                        }
+                        best
+                    }
+                    _ => rng.below(cdf.len() as u128 - 1) as usize,
+                };
                 C::enc_sym(&mut enc, b, p, &cdf, sym).unwrap();
-                d12.push_str(&format!(" | enc {:x} {:x} {:x} {:x}", b, p, cdf[sym], cdf[sym + 1] - cdf[sym]));
+                if n <= 80 || i < 40 {
+                    d12.push_str(&format!(" | enc {:x} {:x} {:x} {:x}", b, p, cdf[sym], cdf[sym + 1] - cdf[sym]));
+                } else if i == 40 {
+                    d12.push_str(&format!(" | … ({} symbols in total, strategy {}, models {:?})", n, strategy, models));
+                }
                 let k = (s - w - p) as f64;
                 bound_bits += p as f64 - ((cdf[sym + 1] - cdf[sym]) as f64).log2() + (1.0 + (-k).exp2()).log2();
                 rep.eval("C12");
